@@ -1,5 +1,5 @@
 ENGINES = [
-    {"name": "seqx", "path": "seqx/", "serves_properties": ["C01", "C17", "C20"],
+    {"name": "seqx", "path": "seqx/", "serves_properties": ["C01", "C11", "C17", "C20"],
      "kind_free_text": "explicit-state breadth-first search over operation sequences: successor = fresh real instance + replay of the shortest history + one operation; dedup on the reference model's canonical state; every operation of the alphabet applied from every reachable state and compared with the reference model"},
     {"name": "gosched", "path": "vrt/ explore/ instr/", "serves_properties": ["C01", "C02", "C03", "C04"],
      "kind_free_text": "stateless model checker for Go: AST instrumenter rewrites go/chan/select/sync/atomic/time/context onto a cooperative scheduler (vrt); explorer does DFS over schedules and environment choices with iterative preemption bounding, work-splitting over worker processes, replay files"},
@@ -8,6 +8,13 @@ NOTES = "All checks rebuild from /repo's working tree through bin/prepare (instr
 NOT_APPLICABLE = {}
 A_NOTE = "Trusted: the vrt shims model Go's mutex/cond/channel/select/timer semantics faithfully (self-tests + repository tests pass on the instrumented build in passthrough mode); sequential consistency; scheduling points before acquire-type operations only; data races are left to a separate -race pass."
 CHECKS = {
+    "C11": {
+        "engine": "seqx-style BFS on gosched (deterministic schedule) + enumeration",
+        "technique": "explicit-state BFS over operation sequences on a differential twin (direct state vs client adapter -> real vtproto marshalling -> server), every history run to exact quiescence on the controlled scheduler; exhaustive enumeration of malformed wire requests against the real server",
+        "text": "Every operation of a 45-operation alphabet (create/update with stale and fresh versions, owners, expected phases, value/phase/finalizer/label changes, destroy, Teardown, TeardownAndDestroy incl. the blocking case, finalizer helpers) is applied from every distinct observed state within depth 4 (thorough 5, richer alphabet) to WrapCore(inmem) and to WrapCore(client.Adapter -> in-process transport -> server.State -> inmem); compared per step: result, error class through all predicates with matching and non-matching qualifiers, write-back of version/owner/update time; per state: Get, 5 filtered Lists (label, OR of queries, inverted, numeric, ID regexp) and 5 watch streams (by id, kind+bootstrap, aggregated tail, label-filtered, by id tail) including bookmark bytes. Repeated against a server lacking the native Teardown RPCs (sticky fallback: at most one native attempt). Wire: 1647 requests covering every RPC with absent/empty/valid/invalid fields, every label operator x 0/1/2 values x invert, invalid regexp, unknown phase/operator, all watch-option conflicts, bad bookmarks: a handler panic is a violation.",
+        "design_ref": "DESIGN.md 3/C11",
+        "note": A_NOTE + " The transport is an in-process loopback (real message marshalling and grpc status conversion, no HTTP/2); tombstone-ness of the initial Destroyed event is not compared (the wire format carries tombstones as ordinary resources).",
+    },
     "C08": {
         "engine": "gosched (deterministic schedule) + enumeration",
         "technique": "exhaustive enumeration of declaration x operation x target x owner on the real runtime API, each case run to exact quiescence under the controlled scheduler, against a reference policy",
